@@ -67,7 +67,7 @@ def replay_checkjump(clause, m):
     return {'reproduced': False, 'tried': tried[:1], 'searched': 'n<=2, values in {-1,0,1}, limits in {None,0,1}'}
 
 
-@contract('C11/checkJump', ['C11', 'C04'], CHECKJUMP, replay=replay_checkjump)
+@contract('C11/checkJump', ['C11', 'C04', 'C05'], CHECKJUMP, replay=replay_checkjump)
 def check_jump(vc):
     """_checkJump accepts exactly the proposals inside every declared limit; a rejected proposal
     leaves state and time unchanged, an accepted one advances time by the step."""
